@@ -27,12 +27,17 @@ def scripts():
         "S3": {"later/1": [clause(C("later", A("l3")))], "baz/0": [clause(A("baz"))], "variable/0": [clause(A("variable"))],
                "foo/10": [clause(C("foo", *[A("x")] * 10))]},
         "S4": {"foo/1": [clause(C("foo", X), conj(CUT, call(C("=", X, A("s4cut")))))], "bar/1": [clause(C("bar", A("s4")))]},
+        # a script that redefines predicates the engine predefines
+        "S5": {"once/1": [clause(C("once", C("foo", X)), call(C("=", X, A("o1")))), clause(C("once", C("foo", X)), call(C("=", X, A("o2"))))],
+               "call/2": [clause(C("call", X, Y), call(C("=", Y, C("called", X))))],
+               "findall/3": [clause(C("findall", X, Y, lst([A("mine")])))]},
     }
 
 
 def probes(base):
     gs = [(C("foo", V(0)), 1), (C("foo", V(0), V(1)), 2), (C("bar", V(0)), 1), (C("late", V(0)), 1), (A("baz"), 0), (A("variable"), 0),
-          (C("unknown", V(0)), 1), (A("foo_1"), 0)]
+          (C("unknown", V(0)), 1), (A("foo_1"), 0), (C("once", C("foo", V(0))), 1), (C("call", A("foo"), V(0)), 1),
+          (C("findall", V(0), C("foo", V(0)), V(1)), 2), (A("zero"), 0)]
     return [[{"op": "solve", "e": 1, "r": base + i, "goal": g, "qnv": q, "k": 0}] for i, (g, q) in enumerate(gs)]
 
 
@@ -52,6 +57,9 @@ def menu():
     m.append({"op": "assert", "e": 1, "term": C("foo", A("fact2"), A("b")), "atEnd": True, "r": 0})
     m.append({"op": "assert", "e": 1, "term": A("variable"), "atEnd": True, "r": 0})
     m.append({"op": "clear", "e": 1})
+    m.append({"op": "load", "e": 1, "script": "S5", "ow": True})
+    m.append({"op": "load", "e": 1, "script": "S5", "ow": False})
+    m.append({"op": "register", "e": 1, "name": "zero", "arity": 0, "style": "explicit-varargs", "fid": "z0", "rows": [{"args": [], "nv": 0}], "raise": {"call": 0, "row": 0}, "yields": False})
     return m
 
 
